@@ -4,6 +4,7 @@
 // for unrepresentable trees, knob independence (byte-identical output), serializer agreement, sink-fault handling.
 #include "glue.hpp"
 #include "c04_text.hpp"
+#include "xform.hpp"
 #include <xalanc/XMLSupport/XalanXMLSerializerFactory.hpp>
 #include <xalanc/XMLSupport/FormatterToXML.hpp>
 #include <xalanc/PlatformSupport/XalanOutputStreamPrintWriter.hpp>
@@ -681,6 +682,7 @@ struct C04 : public Driver {
         uint64_t seed = runSeed(verifSeed, "C04", run);
         Rng root(seed); Rng g = root.fork("gen"), gk = root.fork("knobs"), gf = root.fork("faults");
         Json p = Json::object(); p["property"] = "C04"; p["run"] = (long long)run; p["seed"] = hex64(seed); p["tier"] = tier;
+        if (run % 8 == 5) return genModePlan(p, root);
         const bool wantPipeline = run % 4 == 3;
         static const std::vector<std::pair<const char*, int>> encs = { { "UTF-8", 24 }, { "UTF-16", 15 }, { "ISO-8859-1", 15 }, { "US-ASCII", 10 }, { "windows-1252", 8 }, { "Shift_JIS", 7 }, { "ISO-8859-2", 5 }, { "GB18030", 5 }, { "UTF-16LE", 2 }, { "UTF-16BE", 2 }, { "x-sim-no-such-encoding", 4 }, { "utf-8", 3 } };
         { int tot = 0; for (auto& e : encs) tot += e.second; int x = (int)g.below(tot); for (auto& e : encs) { if (x < e.second) { p["encoding"] = e.first; break; } x -= e.second; } }
@@ -799,7 +801,52 @@ struct C04 : public Driver {
         return g.str();
     }
 
+    // ---- "gen" mode: real stylesheet output.  A generated feature stylesheet (result tree fragments, disable-output-escaping,
+    // cdata-section-elements, comments/PIs built by instructions, long names, ...) runs through the whole pipeline twice: to bytes through the
+    // xml output method, and to a Xerces DOM through FormatterToXercesDOM, which does not involve the serializers.  The bytes must be well-formed
+    // and parse back (with the independent Xerces parser) to the tree the DOM target holds.
+    Json genModePlan(Json p, Rng& root) {
+        Rng g = root.fork("genmode");
+        p["kind"] = "gen";
+        DocCfg dc; dc.maxNodes = (int)g.range(5, 40); dc.ns = g.chance(2, 3); dc.dtd = false; dc.longName = g.chance(1, 6); dc.exoticText = true;
+        GenDoc d = genDoc(g, dc);
+        auto allowed = featuresExcept({ "genid", "ns-axis", "doctype-node", "message", "bigfmt" });
+        SSCfg sc; sc.on = pickFeatures(g, allowed, 2, 8); if (g.chance(1, 2)) sc.on.insert("doe"); if (g.chance(1, 2)) sc.on.insert("rtf"); if (g.chance(1, 3)) sc.on.insert("copyof"); if (g.chance(1, 3)) sc.on.insert("avt-ns"); if (g.chance(1, 3)) sc.on.insert("comment-pi"); if (g.chance(1, 4)) sc.on.insert("padsupp");
+        static const std::vector<std::string> encs = { "UTF-8", "UTF-8", "UTF-16", "UTF-16", "ISO-8859-1", "US-ASCII", "windows-1252", "Shift_JIS" }; sc.encoding = g.pick(encs);
+        sc.cdataElems = g.chance(1, 2); sc.useImport = g.chance(1, 5); sc.useInclude = g.chance(1, 6);
+        static const std::vector<std::string> orders = { "doc", "rk", "rev" }; sc.order = g.pick(orders);
+        GenSS ss = genStylesheet(g, sc, d);
+        p["doc"] = d.xml; p["xsl"] = ss.xsl; p["encoding"] = sc.encoding; Json res = Json::object(); for (auto& kv : ss.resources) res[kv.first] = kv.second; p["resources"] = res;
+        Json f = Json::array(); for (auto& x : ss.features) f.push(x); p["features"] = f;
+        p["buf"] = (long long)g.pick(std::vector<int>{ 1, 3, 16, 511, 512, 513, 4096 }); p["tblock"] = (long long)g.pick(std::vector<int>{ 1, 7, 64, 1024 });
+        return p;
+    }
+    void executeGen(const Json& plan, Result& res, Trace& tr) {
+        XReq rq; rq.doc = plan.str("doc"); rq.xsl = plan.str("xsl"); rq.tgtForm = "writer"; rq.bufSize = (unsigned)plan.num("buf", 512); rq.tblock = (unsigned)plan.num("tblock", 1024);
+        XformOut bytesOut, treeOut;
+        { XEnv env; for (auto& kv : plan.at("resources").o) env.fs.put(kv.first, kv.second.s); SimSink sink; bytesOut = runTransform(env, rq, sink); }
+        { XEnv env; for (auto& kv : plan.at("resources").o) env.fs.put(kv.first, kv.second.s); SimSink sink; XReq r2 = rq; r2.tgtForm = "xercesdom"; treeOut = runTransform(env, r2, sink); }
+        res.count("scripts"); res.count("gen-mode"); res.count("enc:" + plan.str("encoding")); for (auto& f : plan.at("features").a) res.tag("gen|" + plan.str("encoding") + "|" + f.s);
+        tr.ev("gen st=" + std::to_string(bytesOut.status) + "/" + std::to_string(treeOut.status) + " out=" + hex64(fnvStr(bytesOut.bytes)) + " tree=" + hex64(fnvStr(treeOut.canon)));
+        if (!bytesOut.ok() || !treeOut.ok()) { res.count("gen-mode:transformation-failed"); return; }
+        // disable-output-escaping travels through trees as the marker PI <?Xalan raw?> (by design, so that a later serialization of the
+        // tree can honour it); the serializers consume it, a DOM target keeps it: not part of the comparison
+        { const std::string marker = "P{Xalan|raw}"; size_t q; while ((q = treeOut.canon.find(marker)) != std::string::npos) treeOut.canon.erase(q, marker.size()); }     // e.g. a character the encoding cannot put into a name: an error is the right outcome
+        std::string err; std::string canon = canonFromBytes(bytesOut.bytes, &err);
+        auto featureAt = [&](const std::string& c, size_t k) { size_t q = c.rfind("^f=", k); if (q == std::string::npos) return std::string("root"); size_t e = c.find(';', q); return c.substr(q + 3, e == std::string::npos ? 20 : e - q - 3); };
+        if (canon.empty()) {
+            // name the observation in which the parser stopped, using the tree target's canonical form as the map
+            res.violate("not-well-formed", "not-well-formed:pipeline-gen:" + plan.str("encoding"), "the xml output of a generated stylesheet is not well-formed (" + err + "); features " + plan.at("features").dump() + "; first bytes: " + bytesOut.bytes.substr(0, 200));
+            return;
+        }
+        if (canon != treeOut.canon) {
+            size_t k = 0; while (k < canon.size() && k < treeOut.canon.size() && canon[k] == treeOut.canon[k]) ++k;
+            res.violate("tree-differs", "tree-differs:pipeline-gen:" + featureAt(treeOut.canon, k), "bytes written by the xml output method parse to a different tree than FormatterToXercesDOM built for the same transformation, at offset " + std::to_string(k) + ": ..." + treeOut.canon.substr(k > 40 ? k - 40 : 0, 120) + "... vs parsed bytes ..." + canon.substr(k > 40 ? k - 40 : 0, 120) + "...");
+        } else res.count("outcome:gen-roundtrip-ok");
+    }
+
     void execute(const Json& plan, Result& res, Trace& tr) override {
+        if (plan.str("kind") == "gen") { executeGen(plan, res, tr); return; }
         alarm(600);     // safety net only (a run takes milliseconds; a finding seen for the first time in this process, a second or two)
         Script s = scriptFromPlan(plan);
         std::vector<Cfg> cfgs; for (auto& c : plan.at("configs").a) if (c.t == Json::Obj) cfgs.push_back(cfgFromJson(c));
